@@ -495,7 +495,7 @@ func init() {
 		c.Run.Set("distinct_nontrivial", nontrivial)
 		compEvals := c06Composition(c)
 		c.Run.Set("composition_evaluations", compEvals)
-		c.Run.Set("rule", fmt.Sprintf("every multiset of <=%d rules over %d symbols (request-level: exception x important x $domain, $dnsrewrite, $badfilter twins, $stealth; referrer-level: urlblock/genericblock/document/elemhide/+important/+badfilter), request- and referrer-level lists each in every distinct permutation, through NewMatchingResult and GetDNSBasicRule; every set of <=3 symbols in every line order and every split into two lists through Engine, NetworkEngine and DNSEngine; non-trivial = at least two rules", maxSize, len(syms)))
+		c.Run.Set("rule", fmt.Sprintf("every multiset of <=%d rules over %d symbols (request-level: exception x important x $domain, $dnsrewrite, $badfilter twins, $stealth; referrer-level: urlblock/genericblock/document/elemhide/+important/+badfilter), request- and referrer-level lists each in every distinct permutation, through NewMatchingResult and GetDNSBasicRule; every set of <=3 symbols in every line order and every split into two lists through Engine, NetworkEngine and DNSEngine; composition layer: every set of <=3 of 13 rules (incl. $domain-restricted document-level exceptions) in both line orders x 18 requests (3 types x referrer none/same URL/same host/sub-domain/other host/other path): Engine.MatchRequest == precedence over the rules matching the request and the source-less referrer lookup; non-trivial = at least two rules", maxSize, len(syms)))
 		c.Run.Set("exhaustive", exhaustive)
 		c.Run.Assumption("ties inside a class are not compared; only the verdict class is")
 		c.Run.Assumption("$badfilter is applied per list (request-level and referrer-level rules separately), as NewMatchingResult documents")
